@@ -851,3 +851,16 @@ pub mod leaf_updater {
     pub const LEAF_BULK_SPLIT_TARGET: usize = crate::beatree::ops::leaf_updater_verif::consts::BULK_TARGET;
     pub const MAX_LEAF_VALUE_SIZE: usize = crate::beatree::ops::leaf_updater_verif::consts::MAX_VALUE;
 }
+
+// H14 — The page walker (`merkle/page_walker.rs`): the real `PageWalker<Blake3Hasher>` over an in-memory
+// implementation of its `PageSet` trait, driven call by call (`new / advance / advance_and_replace /
+// advance_and_place_node / conclude`, `reconstruct_pages`, `count_leaves`), with a view of its private state
+// and every page of its output.
+pub mod page_walker {
+    pub use crate::merkle::page_walker_verif::{
+        garbage_node, position, Bucket, Origin, OutputView, PageData, ReconstructedView, StackView,
+        StateView, UpdatedView, WalkerSim,
+    };
+    /// `PAGE_ELISION_THRESHOLD`.
+    pub const PAGE_ELISION_THRESHOLD: u64 = crate::merkle::PAGE_ELISION_THRESHOLD;
+}
